@@ -20,7 +20,7 @@
                             step = where(active, r/drdtheta, 0); theta = maximum(theta - step, 0)
               after: phi = _Phi(theta); dG = theta*phi; d = 1/(1+theta*lam); sig_eig = y*d
      Behavior.__Spectral : p_new = pOld + dGamma                                               *)
-From Coq Require Import Reals List Lra Lia Bool QArith Qabs Qreals ZArith Psatz.
+From Coq Require Import Reals List Lra Lia Bool QArith Qabs Qreals ZArith Psatz PeanoNat.
 Import ListNotations.
 
 Record Ops (F : Type) := mkOps {
@@ -144,6 +144,34 @@ Section Generic.
 
   Definition theta0 (pt : point) : F :=
     if active pt then start (phi (pairs pt) 0) (ftrial pt) else 0.
+  (* one loop pass at ONE point: it reads nothing but that point's own data *)
+  Definition advance (q : pstate) : pstate :=
+    (st_pt q, st_act q, next_v (st_act q) (st_th q) (body (st_pt q) (st_th q))).
+
+  (* "result of a batch = results of its points": whatever the other Gauss points of the call
+     are, the loop maps every point through its OWN update, the same number n of times; the
+     shared iteration count n (set by the slowest point) is the only coupling. *)
+  Lemma iter_shift : forall (A : Type) (f : A -> A) n x, Nat.iter (S n) f x = Nat.iter n f (f x).
+  Proof. induction n as [|n IHn]; intro x; [reflexivity|]. simpl in *. rewrite IHn. reflexivity. Qed.
+
+  Lemma loop_pointwise : forall fuel st,
+      exists n, (n <= fuel)%nat /\ loop fuel st = map (Nat.iter n advance) st.
+  Proof.
+    induction fuel as [|k IH]; intros st.
+    - exists O. split; [apply le_n|]. simpl. symmetry. rewrite <- (map_id st) at 2.
+      apply map_ext. reflexivity.
+    - simpl.
+      match goal with |- exists n, _ /\ (if ?c then _ else _) = _ => destruct c end.
+      + exists O. split; [apply Nat.le_0_l|]. simpl. symmetry. rewrite <- (map_id st) at 2.
+        apply map_ext. reflexivity.
+      + rewrite map_map.
+        destruct (IH (map (fun q => (st_pt q, st_act q,
+                     next_v (st_act q) (st_th q) (body (st_pt q) (st_th q)))) st)) as [n [Hn E]].
+        exists (S n). split; [apply le_n_S; exact Hn|].
+        cbn [fst snd]. rewrite E. rewrite map_map. apply map_ext. intro q.
+        rewrite iter_shift. reflexivity.
+  Qed.
+
   Definition init (pts : list point) : list pstate := map (fun pt => (pt, active pt, theta0 pt)) pts.
   Definition solve (maxIter : nat) (pts : list point) : list pstate := loop maxIter (init pts).
 
